@@ -151,6 +151,8 @@ pub struct Pair {
   pub b: Side,
   /// genuine messages produced so far
   pub m: Vec<Token>,
+  /// the requester is the participant built from the first configuration
+  pub a_is_conf_a: bool,
 }
 
 fn e(x: crate::security::SecurityError) -> String {
@@ -172,6 +174,7 @@ impl Pair {
     let tb = pb.h.get_plugins().get_identity_token(pb.prefix()).map_err(e)?;
     let (oa, _) = pa.h.get_plugins().validate_remote_identity(pa.prefix(), tb, pb.prefix(), None).map_err(e)?;
     let (ob, _) = pb.h.get_plugins().validate_remote_identity(pb.prefix(), ta, pa.prefix(), None).map_err(e)?;
+    let a_is_conf_a = oa == ValidationOutcome::PendingHandshakeRequest;
     let (req, rep) = match (oa, ob) {
       (ValidationOutcome::PendingHandshakeRequest, ValidationOutcome::PendingHandshakeMessage) => (pa, pb),
       (ValidationOutcome::PendingHandshakeMessage, ValidationOutcome::PendingHandshakeRequest) => (pb, pa),
@@ -183,7 +186,7 @@ impl Pair {
     let rep_pd = if lie == Some(true) { Some(unbind_guid(&rep.pdata()).ok_or("MACHINERY no GUID in pdata")?) } else { None };
     let a = Side { part: req, st: DState::ReplyMsg, stored: Some((m1.clone(), false)), completed_on_bad: None, last_err: None, pdata_override: None };
     let b = Side { part: rep, st: DState::ReqMsg, stored: None, completed_on_bad: None, last_err: None, pdata_override: rep_pd };
-    Ok(Pair { a, b, m: vec![m1] })
+    Ok(Pair { a, b, m: vec![m1], a_is_conf_a })
   }
 
   pub fn ap(&self) -> GuidPrefix {
@@ -501,6 +504,24 @@ pub fn lying_run(conf_a: &Conf, conf_b: &Conf, replier_lies: bool) -> Result<(bo
   }
   p.continue_genuinely(None, 3);
   Ok((p.a.authenticated(), p.b.authenticated()))
+}
+
+/// A handshake between an honest participant and an attacker whose certificate comes from another CA and
+/// whose (real) plug-in accepts the honest peer, so that every message it sends is well-formed and correctly
+/// signed with its own key: (the attacker is the replier, the honest side authenticated it, the honest side
+/// holds a shared secret with it)
+pub fn impostor_run(honest: &Conf, impostor: &Conf) -> Result<(bool, bool, bool), String> {
+  let mut p = Pair::start(honest, impostor)?;
+  for _ in 0..3 {
+    if !p.step() {
+      break;
+    }
+  }
+  p.continue_genuinely(None, 3);
+  let impostor_is_replier = p.a_is_conf_a;
+  let (ap, bp) = (p.ap(), p.bp());
+  let (side, peer) = if impostor_is_replier { (&p.a, bp) } else { (&p.b, ap) };
+  Ok((impostor_is_replier, side.authenticated(), side.secret(peer).is_some()))
 }
 
 pub fn run(conf_a: &Conf, conf_b: &Conf, sc: &Scenario, old: &Transcript) -> Result<RunResult, String> {
